@@ -6,7 +6,7 @@ package appencryption
 // ---- well-formedness of the objects the SDK builds (constructor-established; assumed of entry-point receivers) ----
 
 //@ spec fn wfE(e *envelopeEncryption) bool = e != nil && e.partition != nil && e.Metastore != nil && e.KMS != nil && e.Policy != nil && e.Crypto != nil && e.SecretFactory != nil && e.skCache != nil && e.ikCache != nil
-//@ spec fn wfCK(k *cachedCryptoKey) bool = k != nil && k.CryptoKey != nil && k.refs != nil
+//@ spec fn wfCK(k *cachedCryptoKey) bool = k != nil && k.CryptoKey != nil && k.refs != nil && k.CryptoKey.secret != nil
 
 // package-level metrics are initialised once, before any call
 //@ axiom [metrics-initialised] decryptTimer != nil && encryptTimer != nil
